@@ -47,12 +47,11 @@ Theorem grid_inv_reachable_catching : forall ops g, Inv g -> pre_on g ops -> Inv
 Proof. exact inv_reachable_on. Qed.
 Print Assumptions grid_inv_reachable_catching.
 
-(** ... except after delete_connection / delete_block of a block that is connected with itself: refused half way *)
-Theorem deleting_a_self_connection_is_refused_and_breaks_inv :
-  exists g a, Inv g /\ step g (DelConn a a) = Raise KeyError /\ step g (DelBlock a) = Raise KeyError /\
-              ~ Inv (after g (DelConn a a)) /\ ~ Inv (after g (DelBlock a)).
-Proof. exact delete_self_connection_refuted. Qed.
-Print Assumptions deleting_a_self_connection_is_refused_and_breaks_inv.
+(** delete_connection and delete_block are never refused on a consistent grid (a block connected with itself included) *)
+Theorem delete_connection_and_block_never_raise : forall g, Inv g ->
+  (forall k, exists g', delete_connection g k = Ok g') /\ (forall n, exists g', delete_block g n = Ok g').
+Proof. exact (fun g I => conj (fun k => delete_connection_total g k I) (fun n => delete_block_total g n I)). Qed.
+Print Assumptions delete_connection_and_block_never_raise.
 
 (** the three preconditions cannot be dropped: the faithful model carries the listed findings *)
 Theorem add_block_replacing_connected_block_breaks_inv :
@@ -116,3 +115,9 @@ Print Assumptions example_rename_with_unfixed_names.
 Theorem example_sequence_with_refused_edits_meets_pre : pre_on g_pair ops_refused.
 Proof. exact refused_sequence_pre. Qed.
 Print Assumptions example_sequence_with_refused_edits_meets_pre.
+Theorem example_self_connection_can_be_deleted :
+  inv_b g_self = true /\
+  (exists g', step g_self (DelConn a1 a1) = Ok g' /\ clist g' = [] /\ cn g' 2%positive = [] /\ inv_b g' = true) /\
+  (exists g', step g_self (DelBlock a1) = Ok g' /\ blist g' = [] /\ clist g' = [] /\ inv_b g' = true).
+Proof. exact delete_self_connection_ok. Qed.
+Print Assumptions example_self_connection_can_be_deleted.
